@@ -51,6 +51,7 @@ THEOREM_CLASSES = {
 }
 UNPROVED = [
     "wrongly typed arguments (argument convertibility): rule table rows only (tests)",
+    "assignment to a constant through a function DEFINITION (`function fp() ... end` over a <const> function-pointer variable / field of a <const> record) is outside the mini-AST: rule table rows only; open finding with a proposed repair",
     "arithmetic on pointers or incompatible types: rule table rows only (tests); the mini-AST has no typed expressions",
     "constants that do not fit: integer -> integer constants over the scraped IntegralType table only; float and enum constants are not covered",
     "constant index on an array of length 0 (`[0]T`): the rule follows the compiler's convention and accepts every non-negative index",
@@ -102,6 +103,8 @@ def gen(ctx):
     if not mg:
         raise RuntimeError("visitors.Goto not found")
     goto_chk = bool(re.search(r"for scope in context\.scope:iterate_up_scopes\(\) do\s+if scope\.is_deferblock and scope ~= labelscope then[^\n]*\n\s+node:raisef\(\"`goto` statement cannot jump out of a `defer` block\"\)\s+end\s+if scope\.has_defer then", mg.group(1)))
+    mcall = re.search(r"\n( +)funcargtype = wantedtype\n\s*\n\s*-- check again the new type\n( +)wantedtype, err = funcargtype:get_convertible_from_attr\(argattr, false, true, argattrs\)\n +if not wantedtype then\n +node:raisef", an)
+    call_rechecks = bool(mcall) and mcall.group(1) == mcall.group(2)
     td = vlib.repo_read("lualib/nelua/typedefs.lua")
     types = []
     for mm in re.finditer(r"primtypes\.(u?int\d+)\s*=\s*types\.IntegralType\('(\w+)',\s*(\d+)(?:,\s*(true|false))?", td):
@@ -120,9 +123,10 @@ def gen(ctx):
            "Definition gen_break_continue_check_defer_block : bool := %s.\n" % ("true" if jump else "false") +
            "Definition gen_upvalue_check_covers_forced_symbols : bool := %s.\n" % ("true" if forced_checked else "false") +
            "Definition gen_goto_checks_defer_block : bool := %s.\n" % ("true" if goto_chk else "false") +
+           "Definition gen_call_rechecks_suggested_type : bool := %s.\n" % ("true" if call_rechecks else "false") +
            "Definition gen_int_types : list (Z * bool) := [%s].\n" % "; ".join("(%d, %s)" % (b, "true" if s else "false") for _, b, s in types))
     vlib.write_if_changed(os.path.join(vlib.coq_dir(ID), "Gen.v"), txt)
-    return {"goto_checks_defer_block": goto_chk, "upvalue_check_covers_forced_symbols": forced_checked, "break_continue_check_defer_block": jump, "switchcase_index_expr": idx_expr, "case_loop_var": m1.group(1), "int_types": types}
+    return {"call_rechecks_suggested_type": call_rechecks, "goto_checks_defer_block": goto_chk, "upvalue_check_covers_forced_symbols": forced_checked, "break_continue_check_defer_block": jump, "switchcase_index_expr": idx_expr, "case_loop_var": m1.group(1), "int_types": types}
 
 
 # programs on which the unchanged analyzer violates the FULL-strength rule (rule_ok_full), replayed in every run
@@ -163,6 +167,8 @@ RULE_TABLE = [
 ]
 # whole-file entries: (key, source, lines on which the located error may be reported)
 RAW_TABLE = [
+    ("funcdef-over-const-variable", "local function a(): integer return 1 end\nlocal fp: function(): integer <const> = a\nfunction fp(): integer return 2 end\nprint(fp())\n", (3,)),
+    ("funcdef-over-const-field", "local function a(): integer return 1 end\nlocal R = @record{cb: function(): integer}\nlocal r: R <const> = {cb = a}\nfunction r.cb(): integer return 2 end\nprint(r.cb())\n", (4,)),
     ("comptime-index-in-poly", "local a: [4]integer\nlocal function f(i: integer <comptime>) return a[i] end\nprint(f(4))\n", (2, 3)),
 ]
 TABLE_EMBEDDINGS = {
@@ -398,7 +404,7 @@ def remap_types(b, usable):
     out = []
     for s in b:
         t = s[0]
-        if t == 'conv': out.append(('conv', usable[s[1]], s[2]))
+        if t == 'conv': out.append(('conv', usable[s[1]], s[2]) + tuple(s[3:]))
         elif t == 'func': out.append(('func', s[1], s[2], remap_types(s[3], usable)))
         elif t in ('do', 'while', 'repeat', 'for', 'defer'): out.append((t, remap_types(s[1], usable)))
         elif t == 'if': out.append(('if', remap_types(s[1], usable), remap_types(s[2], usable)))
